@@ -104,6 +104,7 @@ def run(ctx) -> int:
     if done:
         ctx.exhaustive.append("every verdict sequence of the removal strategies on the SMALL inputs")
     drv.d2_random(ctx, WHICH, NT, 3000 if ctx.thorough else 900)
+    drv.d2_content_oracles(ctx, WHICH, NT)
     drv.d2_touching_test(ctx, WHICH, 600 if ctx.thorough else 150)
     return common.decide(ctx, proof, RULE, search=search, assumptions=["SHA-512 is modelled as the identity (collision freedom)"])
 
